@@ -496,8 +496,12 @@ class C11(Prop):
         "QMI_SignalReceiver._receive_signal as one atomic action (append + notify_all under the condition's lock); "
         "waiting tasks = endless loops of sleep / get_next_signal(None) / get_next_signal(t)",
         "kernel-checked systems: one stop request x {sleep, get_next_signal(None)+publisher, get_next_signal(t)+publisher, "
-        "loop task}, two stop requests x sleep; the larger mixtures (free choice of waits, two stop requests, publisher; "
-        "up to ~5000 states) are explored exhaustively by the compiled driver on every run, not by the kernel",
+        "loop task}, two stop requests x sleep; the larger mixtures (free choice of waits, two stop requests x condition "
+        "waits, publisher, queue capacity 2; up to ~6600 states) are explored exhaustively by the compiled driver on every "
+        "run (same obligations, native evaluation), not by the kernel",
+        "liveness is stated as: no deadlock + no lost wake-up + from every reachable state with the stop request completed "
+        "and no other thread inside a critical section the task thread's own steps, none of them a time-out, end in the "
+        "stop exception within 40 steps (`settles`); fairness of the Python runtime is assumed",
         "the RPC path stop() -> QMI_TaskRunner.stop -> _TaskThread.stop_task and the scheduler/simulated network that "
         "carry it (exercised, not modelled)",
     ]
@@ -547,7 +551,7 @@ class C11(Prop):
         t0 = _time.time()
         nproc = max(1, min(8, (os.cpu_count() or 2) - 1))
         runs: list = []
-        with mp.get_context("fork").Pool(nproc) as pool:
+        with mp.get_context("fork").Pool(nproc, maxtasksperchild=40) as pool:
             bases = [{**b, "k": None} for (b, _) in variants]
             base_obs = pool.map(_worker, bases, chunksize=1)
             runs += list(zip(bases, base_obs))
@@ -662,7 +666,8 @@ class C11(Prop):
         core.ensure_repo_on_path()
         self._native_exploration(ctx, res)
         variants = self._variants(ctx, not ctx.quick)
-        runs = self._sweep(ctx, res, variants, budget_s=ctx.scale(70, 700), pairs=ctx.scale(0, 150))
+        # the time budget is a safety net only (typical: 20-40 s quick, 5 min thorough); a cut is counted in the evidence
+        runs = self._sweep(ctx, res, variants, budget_s=ctx.scale(300, 1500), pairs=ctx.scale(0, 150))
         ctx.log(f"sweep: {len(runs)} schedules of {len(variants)} scenarios")
         self._evaluate(ctx, res, runs)
         return res
@@ -708,7 +713,8 @@ class C11(Prop):
         if res.failures:
             return res
         # (c) the systematic sweep at full size
-        runs = self._sweep(ctx, res, self._variants(ctx, True), stop_at_first=True, budget_s=600)
+        runs = self._sweep(ctx, res, self._variants(ctx, True), stop_at_first=True, budget_s=ctx.scale(150, 600),
+                           pairs=ctx.scale(0, 100))
         self._evaluate(ctx, res, runs, follow=False)
         return res
 
